@@ -44,6 +44,7 @@ func Gen(t *rapid.T) *Case {
 		case 1, 2:
 			p.UseCtx = true
 		}
+		p.Any = rapid.IntRange(0, 3).Draw(t, "viaAny") == 0
 		c.Pubs = append(c.Pubs, p)
 	}
 	return c
